@@ -175,6 +175,9 @@ def add_py_writer(ck, pid, lmax=3):
             ck.add(pysym.obligations_of(outs, func))
     finally:
         mod.np, mod._py_rf_write_hdf5 = real_np, real_ext
+    if pid == "C05":
+        # C05 speaks about refusals; what the counters become after an accepted call is C19's
+        ck.obls[:] = [o for o in ck.obls if not o.label.endswith(".counters")]
     for o in ck.obls:
         if o.label.startswith("py.blocks"):
             o.bounded = "<= %d blocks per call (all values symbolic)" % lmax
